@@ -103,6 +103,8 @@ def _worker(args):
                     check_raw(alg, outlen, pw8, t, m, direct=(m == 37))
         for pl in (0, 1, 8, 64, 200):
             check_raw(alg, 32, pat("C", pl, 3), ts[0], 16)
+        for pwz in (b"\0", b"\0\0", b"pass\0word", b"\0password", b"password\0", b"\0" * 17, b"\xff\0\xff"):      # passwords are byte strings with a length, not C strings
+            check_raw(alg, 32, pwz, ts[0], 16)
         for extra in (1, 512, 1023):
             check_raw(alg, 32, pw8, ts[0], 24, extra)
         # pass counts around the widths an implementation could narrow the pass index to (8 and 16 bits), at the minimum memory
